@@ -151,7 +151,9 @@ func runC08(c *Ctx) {
 	checkIssuersPersistEveryAddress(c, "C08-R2")
 	checkStartBlockDecision(c, "C08-R2")
 	checkAccountCreationRefusesExistingNumber(c, "C08-R2")
+	checkUnlockLoopsComplete(c, "C08-R2") // the cached account keys after Lock+Unlock are those a restart would load
 	checkImportAddressIDAgreesWithConstructor(c, "C08-R3")
+	checkImportPathsAgreeOnSchemaField(c, "C08-R3")
 	checkDerivationPathLiterals(c, "C08-R3")
 	checkRowRewrites(c, "C08-R4")
 	c.Advisory("Manager.SetBirthday stores the in-memory birthday before writing it (outside the property's query list)")
